@@ -21,6 +21,18 @@ use crate::fixture::*;
 
 pub const P: &str = "C37";
 
+/// `serde_json::Value` cannot hold integers above `u64::MAX`: 128-bit plan values travel as decimal strings.
+mod u128_str {
+    use serde::{Deserialize, Deserializer, Serializer};
+    pub fn serialize<S: Serializer>(v: &u128, s: S) -> Result<S::Ok, S::Error> {
+        s.serialize_str(&v.to_string())
+    }
+    pub fn deserialize<'de, D: Deserializer<'de>>(d: D) -> Result<u128, D::Error> {
+        let s = String::deserialize(d)?;
+        s.parse::<u128>().map_err(serde::de::Error::custom)
+    }
+}
+
 #[derive(Clone, Debug, Serialize, Deserialize)]
 pub struct Cfg {
     /// Fault-injecting sub-batch (odd runs) vs fault-free sub-batch (even runs).
@@ -30,7 +42,9 @@ pub struct Cfg {
     pub n_users: usize,
     pub rounds: usize,
     pub gt_decimals: u8,
+    #[serde(with = "u128_str")]
     pub minting_cost: u128,
+    #[serde(with = "u128_str")]
     pub grow_factor: u128,
     pub grow_step: u64,
     /// Price of each token as a multiple (in bps) of its reference price.
@@ -61,7 +75,12 @@ pub enum ClaimMode {
 
 #[derive(Clone, Debug, Serialize, Deserialize)]
 pub enum Op {
-    SetFactor { buyback: bool, factor: u128, signer: Actor },
+    SetFactor {
+        buyback: bool,
+        #[serde(with = "u128_str")]
+        factor: u128,
+        signer: Actor,
+    },
     MintGt { user: usize, amount: u64 },
     PrepareVault,
     PrepareBank { back: usize, signer: Actor },
